@@ -6,6 +6,7 @@ package c03
 
 import (
 	"go/ast"
+	"go/constant"
 	"go/token"
 	"go/types"
 	"strings"
@@ -788,13 +789,83 @@ func FieldWrites(c *core.Ctx, typ, field string) []FieldWrite {
 				}
 			case *ast.UnaryExpr:
 				if s.Op == token.AND && core.IsFieldNamed(info, s.X, typ, field) {
-					out = append(out, FieldWrite{In: b, Stmt: s, Tok: token.AND, Res: -1})
+					if ws, ok := derefWrites(b, s); ok {
+						out = append(out, ws...)
+					} else {
+						out = append(out, FieldWrite{In: b, Stmt: s, Tok: token.AND, Res: -1})
+					}
 				}
 			}
 			return true
 		})
 	}
 	return out
+}
+
+// derefWrites: addr (`&x.f`) only initialises a pointer local `p := &x.f` of
+// body b whose every use is a dereference `*p` in b's own statements; the
+// writes `*p = v`, `*p op= v`, `(*p)++` are then writes of the field.
+func derefWrites(b MBody, addr *ast.UnaryExpr) ([]FieldWrite, bool) {
+	info := b.Pkg.TypesInfo
+	var def *ast.AssignStmt
+	for _, pn := range core.PathTo(b.Root(), addr) {
+		if as, ok := pn.(*ast.AssignStmt); ok {
+			def = as
+		}
+	}
+	if def == nil || def.Tok != token.DEFINE || len(def.Lhs) != 1 || len(def.Rhs) != 1 || ast.Unparen(def.Rhs[0]) != ast.Expr(addr) {
+		return nil, false
+	}
+	pid, ok := def.Lhs[0].(*ast.Ident)
+	if !ok || pid.Name == "_" {
+		return nil, false
+	}
+	p := info.Defs[pid]
+	if p == nil {
+		return nil, false
+	}
+	uses, derefs := 0, 0
+	core.InspectAll(b.Decl.Body, func(n ast.Node) bool {
+		if id, ok := n.(*ast.Ident); ok && info.Uses[id] == p {
+			uses++
+		}
+		return true
+	})
+	var out []FieldWrite
+	isDeref := func(e ast.Expr) bool {
+		st, ok := ast.Unparen(e).(*ast.StarExpr)
+		return ok && IsObj(info, p)(st.X)
+	}
+	core.Inspect(b.Root(), func(n ast.Node) bool {
+		switch x := n.(type) {
+		case *ast.StarExpr:
+			if IsObj(info, p)(x.X) {
+				derefs++
+			}
+		case *ast.AssignStmt:
+			for i, l := range x.Lhs {
+				if !isDeref(l) {
+					continue
+				}
+				w := FieldWrite{In: b, Stmt: x, Tok: x.Tok, Res: -1}
+				if len(x.Lhs) == len(x.Rhs) {
+					w.Rhs = x.Rhs[i]
+				} else {
+					w.Rhs, w.Res = x.Rhs[0], i
+				}
+				out = append(out, w)
+			}
+		case *ast.IncDecStmt:
+			if isDeref(x.X) {
+				out = append(out, FieldWrite{In: b, Stmt: x, Tok: x.Tok, Res: -1})
+			}
+		}
+		return true
+	})
+	if uses != derefs {
+		return nil, false
+	}
+	return out, true
 }
 
 // CallsTo lists (body, call) pairs of static calls to fn in the module; go
@@ -875,4 +946,254 @@ func PlainCallees(c *core.Ctx, fn *core.Fn, depth int) map[*types.Func]bool {
 	}
 	walk(fn, depth)
 	return out
+}
+
+// SumTerms returns the summands of e as it is evaluated in the statement use:
+// `a + b` splits, and a local built up in straight-line code -- one plain
+// definition followed by `v += t` statements, all in the basic block of use and
+// before it -- contributes the summands of its definition and of every t.
+// Anything else is a summand by itself.
+func SumTerms(info *types.Info, g *cfgq.Graph, scope ast.Node, e ast.Expr, use ast.Node) []ast.Expr {
+	var out []ast.Expr
+	var walk func(e ast.Expr, use ast.Node, depth int)
+	walk = func(e ast.Expr, use ast.Node, depth int) {
+		e = ast.Unparen(e)
+		if be, ok := e.(*ast.BinaryExpr); ok && be.Op == token.ADD {
+			walk(be.X, use, depth)
+			walk(be.Y, use, depth)
+			return
+		}
+		id, ok := e.(*ast.Ident)
+		if v, isVar := core.ObjOf(info, id).(*types.Var); !ok || !isVar || v.IsField() || depth == 0 || use == nil {
+			out = append(out, e)
+			return
+		}
+		var plain *Origin
+		var adds []Origin
+		for _, o := range Origins1(info, scope, id) {
+			o := o
+			switch {
+			case o.Zero:
+			case o.Op == 0 && !o.Range && o.Res < 0 && o.Expr != nil && !o.Param && plain == nil && ast.Unparen(o.Expr) != ast.Expr(id):
+				plain = &o
+			case o.Op == token.ADD_ASSIGN && o.Expr != nil:
+				adds = append(adds, o)
+			default:
+				out = append(out, e)
+				return
+			}
+		}
+		if plain != nil && len(adds) == 0 {
+			// a single-definition temporary
+			walk(plain.Expr, plain.Stmt, depth-1)
+			return
+		}
+		if plain == nil || plain.Stmt == nil || !SameBlock(g, plain.Stmt, use) || plain.Stmt.Pos() >= use.Pos() {
+			out = append(out, e)
+			return
+		}
+		for _, a := range adds {
+			if a.Stmt == nil || !SameBlock(g, a.Stmt, use) || a.Stmt.Pos() <= plain.Stmt.Pos() || a.Stmt.Pos() >= use.Pos() {
+				out = append(out, e)
+				return
+			}
+		}
+		walk(plain.Expr, plain.Stmt, depth-1)
+		for _, a := range adds {
+			walk(a.Expr, a.Stmt, depth-1)
+		}
+	}
+	walk(e, use, 4)
+	return out
+}
+
+// SameBlock: the statements a and b lie in the same basic block of g (straight-line code).
+func SameBlock(g *cfgq.Graph, a, b ast.Node) bool { return sameBlock(g, a, b) }
+
+// TableRead resolves a read `m[K]` of a local map that is used as a constant
+// table: m is defined once (make or a literal) in scope, every other use of m
+// is an element write `m[k] = v` or an element read, every write is an
+// unconditional statement of the function body -- directly, or in a range over
+// a composite literal of constants whose value variable is the key -- that
+// precedes the read, the keys are constants, and exactly one write has the key
+// K. It returns the value written under K (with the range variable replaced by
+// the matching element), or nil.
+func TableRead(info *types.Info, scope ast.Node, e ast.Expr) ast.Expr {
+	ix, ok := ast.Unparen(e).(*ast.IndexExpr)
+	if !ok {
+		return nil
+	}
+	mid, ok := ast.Unparen(ix.X).(*ast.Ident)
+	if !ok {
+		return nil
+	}
+	m, ok := core.ObjOf(info, mid).(*types.Var)
+	if !ok || m.IsField() {
+		return nil
+	}
+	if _, isMap := m.Type().Underlying().(*types.Map); !isMap {
+		return nil
+	}
+	ktv, ok := info.Types[ix.Index]
+	if !ok || ktv.Value == nil {
+		return nil
+	}
+	var body *ast.BlockStmt
+	switch x := scope.(type) {
+	case *ast.FuncDecl:
+		body = x.Body
+	case *ast.FuncLit:
+		body = x.Body
+	case *ast.BlockStmt:
+		body = x
+	}
+	if body == nil || !(body.Pos() <= m.Pos() && m.Pos() < body.End()) {
+		return nil
+	}
+	sameKey := func(k ast.Expr) (same, isConst bool) {
+		tv, ok := info.Types[k]
+		if !ok || tv.Value == nil {
+			return false, false
+		}
+		return constant.Compare(tv.Value, token.EQL, ktv.Value), true
+	}
+	accounted := map[*ast.Ident]bool{}
+	var hits []ast.Expr
+	bad := false
+	// the definition
+	for _, o := range Origins1(info, scope, mid) {
+		if o.Zero {
+			continue
+		}
+		if o.Op != 0 || o.Range || o.Res >= 0 || o.Expr == nil || o.Param {
+			return nil
+		}
+		switch d := ast.Unparen(o.Expr).(type) {
+		case *ast.CallExpr:
+			if bi, ok := core.Callee(info, d).(*types.Builtin); !ok || bi.Name() != "make" {
+				return nil
+			}
+		case *ast.CompositeLit:
+			for _, el := range d.Elts {
+				kv, ok := el.(*ast.KeyValueExpr)
+				if !ok {
+					return nil
+				}
+				same, isC := sameKey(kv.Key)
+				if !isC {
+					return nil
+				}
+				if same {
+					hits = append(hits, kv.Value)
+				}
+			}
+		default:
+			return nil
+		}
+		if o.Stmt == nil || o.Stmt.Pos() >= ix.Pos() {
+			return nil
+		}
+	}
+	// writes: top-level statements, or top-level statements of a top-level range over a literal of constants
+	var visit func(list []ast.Stmt, rs *ast.RangeStmt)
+	visit = func(list []ast.Stmt, rs *ast.RangeStmt) {
+		for _, st := range list {
+			switch x := st.(type) {
+			case *ast.AssignStmt:
+				for i, l := range x.Lhs {
+					lx, ok := ast.Unparen(l).(*ast.IndexExpr)
+					if !ok || !IsObj(info, m)(lx.X) {
+						continue
+					}
+					accounted[ast.Unparen(lx.X).(*ast.Ident)] = true
+					if x.Tok != token.ASSIGN || len(x.Lhs) != len(x.Rhs) || x.Pos() >= ix.Pos() {
+						bad = true
+						continue
+					}
+					if same, isC := sameKey(lx.Index); isC {
+						if same {
+							hits = append(hits, x.Rhs[i])
+						}
+						continue
+					}
+					// key = the value variable of the enclosing range over a literal of constants
+					if rs == nil || rs.Value == nil || !IsObj(info, core.ObjOf(info, rs.Value.(*ast.Ident)))(lx.Index) {
+						bad = true
+						continue
+					}
+					lit := ast.Unparen(rs.X).(*ast.CompositeLit)
+					for _, el := range lit.Elts {
+						same, isC := sameKey(el)
+						if !isC {
+							bad = true
+							break
+						}
+						if same {
+							hits = append(hits, Subst(info, nil, x.Rhs[i], Binding{core.ObjOf(info, rs.Value.(*ast.Ident)): el}))
+						}
+					}
+				}
+			case *ast.RangeStmt:
+				if rs != nil {
+					continue
+				}
+				if lit, ok := ast.Unparen(x.X).(*ast.CompositeLit); ok {
+					if _, isID := x.Value.(*ast.Ident); isID || x.Value == nil {
+						_ = lit
+						visit(x.Body.List, x)
+					}
+				}
+			case *ast.BlockStmt:
+				if rs == nil {
+					visit(x.List, nil)
+				}
+			}
+		}
+	}
+	visit(body.List, nil)
+	// every other use of m is an element read
+	core.InspectAll(body, func(n ast.Node) bool {
+		if rx, ok := n.(*ast.IndexExpr); ok && IsObj(info, m)(rx.X) {
+			if id, ok := ast.Unparen(rx.X).(*ast.Ident); ok && !accounted[id] {
+				// a read, unless it is the target of an assignment the walk above did not reach
+				accounted[id] = true
+				for _, pn := range core.PathTo(body, rx) {
+					if as, ok := pn.(*ast.AssignStmt); ok {
+						for _, l := range as.Lhs {
+							if ast.Unparen(l) == ast.Expr(rx) {
+								bad = true // conditional / nested write
+							}
+						}
+					}
+					if inc, ok := pn.(*ast.IncDecStmt); ok && ast.Unparen(inc.X) == ast.Expr(rx) {
+						bad = true
+					}
+				}
+			}
+		}
+		return true
+	})
+	core.InspectAll(body, func(n ast.Node) bool {
+		if id, ok := n.(*ast.Ident); ok && info.Uses[id] == types.Object(m) && !accounted[id] {
+			// the definition `m = make(..)` writes the variable itself
+			isDef := false
+			for _, pn := range core.PathTo(body, id) {
+				if as, ok := pn.(*ast.AssignStmt); ok {
+					for _, l := range as.Lhs {
+						if ast.Unparen(l) == ast.Expr(id) {
+							isDef = true
+						}
+					}
+				}
+			}
+			if !isDef {
+				bad = true
+			}
+		}
+		return true
+	})
+	if bad || len(hits) != 1 {
+		return nil
+	}
+	return hits[0]
 }
